@@ -89,7 +89,9 @@ func (P) Gen(rng *sim.Rng, tier string) *harness.Case {
 			// use the pooled context of an earlier request)
 			ops = append(ops, harness.Op{K: "other"})
 		} else if rng.Chance(0.7) {
-			ops = append(ops, harness.Op{K: "req", R: rng.Intn(cfg.Nodes), N: uint64([]int{0, 0, 1, 5, 20}[rng.Intn(5)]), F: rng.Chance(0.55)})
+			// M == 1: if this request's completion closes the node's breaker, the node's recycle timer (when one is
+			// armed) gets to fire right then - between the steps of the completing caller
+			ops = append(ops, harness.Op{K: "req", R: rng.Intn(cfg.Nodes), N: uint64([]int{0, 0, 1, 5, 20}[rng.Intn(5)]), F: rng.Chance(0.55), M: uint64(rng.Intn(3) / 2)})
 		} else {
 			ops = append(ops, harness.Op{K: "sleep", N: []uint64{1, 50, 100, 199, 200, 201, 500, 1000, 1001, 2000, 3000, 5000, 6000}[rng.Intn(13)]})
 		}
@@ -194,6 +196,23 @@ func (P) Exec(c *harness.Case) *harness.Outcome {
 		harness.Call(o, "C20.panic", 0, drain) // let the workers consume what is queued while the rule still exists
 		_ = outlier.ClearRules()
 	}()
+	// timer race (ops with M == 1): a listener runs inside the breaker's OnRequestComplete, right after the
+	// transition to Closed - the place where another goroutine (here: the recycle timer) can get in before the
+	// completing caller goes on
+	raceArmed, raceAt, raceT0 := false, uint64(0), uint64(0)
+	cb.ClearStateChangeListeners()
+	cb.RegisterStateChangeListeners(&closeHook{func() {
+		if !raceArmed {
+			return
+		}
+		raceArmed = false
+		if now := nowMs(); raceAt == now+1 {
+			raceT0 = now
+			o.Fault("recycle_timer_fired_inside_a_completion")
+			tq.AdvanceMs(1, drain)
+		}
+	}})
+	defer cb.ClearStateChangeListeners()
 	sc := sentinel.BuildDefaultSlotChain()
 	sc.AddRuleCheckSlot(outlier.DefaultSlot)
 	sc.AddStatSlot(outlier.DefaultMetricStatSlot)
@@ -379,34 +398,64 @@ func (P) Exec(c *harness.Case) *harness.Outcome {
 			for k := 0; k < cfg.Nodes && contains(filter, target); k++ {
 				target = addr((op.R + k + 1) % cfg.Nodes)
 			}
+			// timer race: the request lasts until one millisecond before the target's recycle timer is due (passive
+			// recovery only: with active recovery the retryer's own completions for the node could fall into the
+			// same millisecond, and a completion between a breaker's closing and the reset of its statistic is a
+			// race of its own that no property speaks about)
+			raceT0 = 0
+			arm := false
+			rt := op.N
+			if op.M == 1 && !op.F && !cfg.Active {
+				mu.Lock()
+				if n := nodes[target]; n != nil && n.pending && n.recycleAt > nowMs()+op.N+1 && n.recycleAt-nowMs() < 100000 {
+					arm, raceAt = true, n.recycleAt
+					rt = n.recycleAt - 1 - nowMs()
+				}
+				mu.Unlock()
+			}
 			harness.Call(o, "C20.panic", step, func() {
 				sentinel.TraceCallee(e, target)
-				if op.N > 0 {
-					tq.AdvanceMs(op.N, drain)
+				if rt > 0 {
+					tq.AdvanceMs(rt, drain)
 				}
 			})
 			// timers that fired while the request was running are applied before its completion
-			if o.Failed() || (op.N > 0 && !processTimers(step)) {
+			if o.Failed() || (rt > 0 && !processTimers(step)) {
 				return o
+			}
+			if arm {
+				// (the timers that fired meanwhile may have changed the target's situation)
+				mu.Lock()
+				n := nodes[target]
+				arm = n != nil && n.pending && n.recycleAt == raceAt && raceAt == nowMs()+1
+				mu.Unlock()
 			}
 			harness.Call(o, "C20.panic", step, func() {
 				if op.F {
 					sentinel.TraceError(e, errors.New("node failure"))
 				}
+				// (armed for the completion of THIS request only: the workers drained afterwards report completions
+				// of their own, from inside timer callbacks)
+				raceArmed = arm
 				e.Exit()
+				raceArmed = false
 				drain()
 			})
+			raceArmed = false
 			if o.Failed() {
 				return o
 			}
 			done := nowMs()
+			if raceT0 != 0 {
+				done = raceT0 // the request completed before the timer ran
+			}
 			mu.Lock()
 			n := nodes[target]
 			if n == nil {
 				n = &node{m: model.NewBreaker(cfg.Rule)}
 				nodes[target] = n
 			}
-			n.m.Complete(done, op.N, op.F)
+			n.m.Complete(done, rt, op.F)
 			if !op.F {
 				n.hadOK = true
 				if n.pending {
@@ -435,6 +484,12 @@ func (P) Exec(c *harness.Case) *harness.Outcome {
 	o.Nontrivial = sawFilter && sawCap && sawRecycleOrKeep
 	return o
 }
+
+type closeHook struct{ f func() }
+
+func (h *closeHook) OnTransformToClosed(prev cb.State, rule cb.Rule)              { h.f() }
+func (h *closeHook) OnTransformToOpen(prev cb.State, rule cb.Rule, _ interface{}) {}
+func (h *closeHook) OnTransformToHalfOpen(prev cb.State, rule cb.Rule)            {}
 
 func contains(l []string, s string) bool {
 	for _, x := range l {
